@@ -82,7 +82,7 @@ func runSched(f *vevid.Flags, rep *vevid.Report, w *world) {
 		sql := strings.ReplaceAll(menuByID(sc.Query).SQL, "$m", metric)
 		run, planErr, err := w.c.LeafResponses(sql, w.tr, sc.Layout.leaves())
 		if err != nil || planErr != nil {
-			vevid.Fatal("sched scenario %s: %v %v", sc.Name, err, planErr)
+			vevid.OpFailed("sched scenario %s: %v %v", sc.Name, err, planErr)
 		}
 		// sequential reference of the SAME responses: natural order, completion first
 		r := w.c.DeliverX(sql, w.tr, run, vbox.DeliverOpt{CompleteAt: 0, Clone: true})
